@@ -29,7 +29,7 @@ CONSTANTS MaxChunks,      \* deliveries per connection
 
 \* payloads (symbol names): none, plain data, data that looks like another v1 / v2 header (must
 \* reach the application untouched), data larger than the header limit and the read buffer
-Payloads == IF PayLevel = 1 THEN { << >>, << "d1" >>, << "dH" >> }
+Payloads == IF PayLevel = 1 THEN { << >>, << "d1" >>, << "dH" >>, << "dB" >> }
             ELSE { << >>, << "d1" >>, << "dH" >>, << "dV" >>, << "d1", "d2" >>, << "dB" >>, << "d1", "dB" >> }
 
 S(k)     == [k |-> k, n |-> 0]
